@@ -464,3 +464,29 @@ Proof.
   intros H. destruct (parse_impl_attr_only_debug _ _ H) as (Hn & _). unfold no_deps_value.
   destruct v; cbn [apply_variant o_no_deps]; rewrite Hn; reflexivity.
 Qed.
+
+(** ** per-function facts for the fns of a module / impl block *)
+Definition fn_ok (k : receiver_kind) (o : opts) (s : sig) (tf : trait_fn) : Prop :=
+  exists tg1 tg2 tf0, analyze k o tg1 s = Ok (tf0, tg2) /\
+    tf_deps tf = tf_deps tf0 /\ tf_sig tf = tf_sig tf0 /\ tf_async tf = tf_async tf0.
+
+Lemma analyze_all_fn_ok k o : forall sigs tg fns tg',
+  analyze_all k o tg sigs = Ok (fns, tg') -> Forall2 (fn_ok k o) sigs fns.
+Proof.
+  induction sigs as [|s sigs IH]; intros tg fns tg' H; simpl in H.
+  - injection H as <- _. constructor.
+  - inv_ok H. destruct a as [tf tg1]. inv_ok H0. destruct a as [tfs tg2]. injection H1 as <- _.
+    constructor; [|eapply IH; exact E0]. exists tg, tg1, tf. auto.
+Qed.
+
+Lemma with_cfg_attrs_fn_ok k o : forall sigs fns src,
+  Forall2 (fn_ok k o) sigs fns -> Forall2 (fn_ok k o) sigs (with_cfg_attrs fns src).
+Proof.
+  intros sigs fns src H. revert src. induction H as [|s tf sigs fns Hh Ht IH]; intros src; [destruct src; constructor|].
+  destruct src as [|[[[a v] s0] b] src]; simpl; [constructor; assumption|].
+  constructor; [|apply IH]. destruct Hh as (tg1 & tg2 & tf0 & Ha & H1 & H2 & H3).
+  exists tg1, tg2, tf0. cbn [tf_deps tf_sig tf_async]. auto.
+Qed.
+
+Lemma fn_ok_single k o tg s tf tg' : analyze k o tg s = Ok (tf, tg') -> fn_ok k o s tf.
+Proof. intros H. exists tg, tg', tf. auto. Qed.
